@@ -97,6 +97,56 @@ def oracle_text(fmt, ns, tz, zone_name, utc):
     return out
 
 
+def denotes(fmt, cs, exact, local_hex, utc_hex):
+    """do the printed local and UTC texts denote sync + (clock - syncClock)/frequency (within 1 ns, as the single-instant monitor
+    accepts)?  None = this case has no oracle (zone-shifted instant before the epoch in a partial format)"""
+    syncNs, f, ticks, tz = exact
+    ns_lo = syncNs + (ticks * 10 ** 9) // f if ticks >= 0 else syncNs - ((-ticks) * 10 ** 9 + f - 1) // f
+    try:
+        u, l = bytes.fromhex(utc_hex), bytes.fromhex(local_hex)
+    except ValueError:
+        return False
+    if fmt != FULLFMT:
+        if ns_lo + tz * 10 ** 9 < 0 or ns_lo < 0:
+            return None
+        return any(u == oracle_text(fmt, c, tz, cs[4], True) and l == oracle_text(fmt, c, tz, cs[4], False) for c in (ns_lo, ns_lo + 1))
+    sign = '+' if tz >= 0 else '-'
+    zone = '%s%02d%02d' % (sign, abs(tz) // 3600, abs(tz) // 60 % 60)
+    for cand in (ns_lo, ns_lo + 1):
+        if cand + tz * 10 ** 9 < -62135596800 * 10 ** 9 or cand < -62135596800 * 10 ** 9:
+            return None
+        if u.decode('latin1').startswith(expected_fields(cand) + ' +0000 UTC') and \
+                l.decode('latin1').startswith(expected_fields(cand + tz * 10 ** 9) + ' ' + zone):
+            return True
+    return False
+
+
+def gen_seq(rng):
+    """instants printed one after the other by ONE printer: the same or nearby instants (same second, next second, next minute,
+    next day) under clock syncs that differ in zone offset and name (logs of hosts in different zones concatenated, a zone or
+    DST change while running), and unrelated instants in between"""
+    fmt, cs, clock, exact = gen_case(rng)
+    syncNs, f, ticks, tz = exact
+    items = [(cs, clock, exact)]
+    for _ in range(rng.choice([1, 2, 3, 5])):
+        k = rng.randrange(6)
+        if k == 0:
+            _, cs2, clock2, exact2 = gen_case(rng)                      # unrelated
+            items.append((cs2, clock2, exact2))
+            continue
+        pcs, pclock, pexact = items[-1]
+        psync, pf, pticks, ptz = pexact
+        dt_ns = rng.choice([0, 0, 1, 999, 10 ** 8, 10 ** 9, 60 * 10 ** 9, 86400 * 10 ** 9, -10 ** 8, -10 ** 9])
+        dticks = dt_ns * pf // 10 ** 9
+        tz2 = ptz if k == 1 else rng.choice([0, 3600, -3600, 19800, -18000, 7200, ptz + 3600 if ptz < 80000 else ptz - 3600])
+        name2 = pcs[4] if k == 1 else rng.choice([b'UTC', b'CET', b'EST', b''])
+        clock2 = pclock + dticks
+        if not (0 <= clock2 < (1 << 64)):
+            clock2, dticks = pclock, 0
+        items.append(((pcs[0], pf, psync, tz2 & 0xffffffff, name2), clock2, (psync, pf, pticks + dticks, tz2)))
+    return fmt, items
+
+
 def check_c17(ctx):
     ok = proof_step(ctx, 'BinlogVerif.Props.C17', C17_THEOREMS)
     exe = build_harness('reader_harness')
@@ -162,6 +212,33 @@ def check_c17(ctx):
         else:
             nontrivial.add(lines[i])
     report_corr(ctx, 'time', lines, impl, model, mism, prop_fail)
+    # sequences through one printer
+    nseq = cases_count(ctx, 1200, 30000)
+    seqs = [gen_seq(rng) for _ in range(nseq)]
+    slines = ['timeseq %s %s' % (fmt.hex() or '-', ' '.join('%d,%d,%d,%d,%s/%d' % (cs[0], cs[1], cs[2], cs[3], cs[4].hex(), clock) for cs, clock, _ in items))
+              for fmt, items in seqs]
+    simpl, smodel, smism = diff_streams(ctx, 'timeseq', exe, slines)
+    sfail = set()
+    for i, (fmt, items) in enumerate(seqs):
+        if i >= len(simpl) or simpl[i].startswith('<harness'):
+            continue
+        kv = parse_kv(simpl[i])
+        ls, us = kv.get('local', '').split(','), kv.get('utc', '').split(',')
+        if len(ls) != len(items) or len(us) != len(items):
+            continue
+        for j, (cs, clock, exact) in enumerate(items):
+            if denotes(fmt, cs, exact, ls[j], us[j]) is False:
+                sfail.add(i)
+                prop_fail.add(('seq', i))
+                if len(sfail) <= 3:
+                    ctx.violation('timeseq-' + hashlib.sha256(slines[i].encode()).hexdigest()[:10],
+                                  'C17: printed by one printer after other instants, timestamp %d of the sequence does not denote '
+                                  'sync + (clock - syncClock)/frequency (format %r)' % (j + 1, fmt.decode('latin1')),
+                                  {'kind': 'history', 'input_line': slines[i], 'impl': simpl[i], 'failing_index': j})
+                break
+        else:
+            nontrivial.add(slines[i])
+    report_corr(ctx, 'timeseq', slines, simpl, smodel, smism, set(i for i in sfail))
     finish_proof(ctx, ok, bool(prop_fail))
     ctx.coverage.update({'evaluations': len(lines), 'distinct_nontrivial': len(nontrivial),
                          'traces_validated_against_impl': len(lines) - len(mism),
